@@ -204,7 +204,10 @@ type caseRun struct {
 	parkedAt map[int64]int
 	secOfRid map[int64]int
 	oowPrev int64
-	memFull bool
+	ballastUnits, ballastBytes, unit, limit int // historic memory budget: model units <-> real bytes
+	diskOk bool
+	trueUsedPrev, counterPrev int // before the current op: real queued bytes + ballast, and the agent's counter
+	accountingReported bool
 	vt     int
 	// oracle state
 	flushed   []int
@@ -242,6 +245,16 @@ func (c *caseRun) newAgent() {
 		panic(err)
 	}
 	c.ag = a
+	// the model's limit is 1000 units of one second's data; the real limit is a 50 MiB constant: fill the difference
+	if c.unit == 0 {
+		c.unit = c.mkCbd(B).Len()
+	}
+	c.limit = a.MemLimit()
+	c.ballastUnits = 0
+	c.ballastBytes = c.limit - 1000*c.unit
+	a.AddHistoricDataSize(c.ballastBytes)
+	c.diskOk = true
+	c.trueUsedPrev, c.counterPrev = c.ballastBytes, c.ballastBytes
 }
 
 func (c *caseRun) mkCbd(t int) agent.VerifC01Cbd {
@@ -250,7 +263,11 @@ func (c *caseRun) mkCbd(t int) agent.VerifC01Cbd {
 	item.SetSkeys([]string{"", "", fmt.Sprintf("c01m%de", a)})
 	item.Tail.SetCounter(3, &item.FieldsMask)
 	sb := tlstatshouse.SourceBucket3{Metrics: []tlstatshouse.MultiItem{item}}
-	return agent.VerifC01MakeCbd(a, &sb)
+	cbd := agent.VerifC01MakeCbd(a, &sb)
+	if c.unit != 0 && cbd.Len() != c.unit {
+		c.fatal = fmt.Sprintf("generated seconds differ in size (%d vs %d): memory units undefined", cbd.Len(), c.unit)
+	}
+	return cbd
 }
 
 // wait for the single runnable sender to block in the rpc or to finish
@@ -442,7 +459,16 @@ func (c *caseRun) state() {
 		alive += strconv.Itoa(b01(c.ag.Alive(r)))
 	}
 	oow := c.oowPrev + c.ag.OutOfWindowDropped()
-	c.obs("st q=%s known=%s fl=%s alive=%s oow=%d reqs=%s resps=%s", verifx.List(qs), verifx.List(ks), verifx.List(fl), alive, oow, verifx.List(rq), verifx.List(rs))
+	used := c.ag.HistoricDataSize() - c.ballastBytes
+	mem := strconv.Itoa(used / c.unit)
+	if used%c.unit != 0 || used < 0 {
+		mem = fmt.Sprintf("%d+%d", used/c.unit, used%c.unit)
+	}
+	if real := c.ag.QueueDataBytes(); real != used && !c.accountingReported {
+		c.accountingReported = true
+		c.viol("historic-size-accounting", "historicBucketsDataSize accounts %d bytes of queued bucket data but the historic queue holds %d bytes (limit %d, other data %d): the memory limit no longer measures memory", used, real, c.limit, c.ballastBytes)
+	}
+	c.obs("st q=%s known=%s fl=%s alive=%s mem=%s oow=%d reqs=%s resps=%s", verifx.List(qs), verifx.List(ks), verifx.List(fl), alive, mem, oow, verifx.List(rq), verifx.List(rs))
 	var as []string
 	for r := 0; r < 3; r++ {
 		if c.aggs[r] == nil {
@@ -493,13 +519,17 @@ func (c *caseRun) checkForgotten(opName string, ackedSec int, acked bool, restar
 			c.excused[s] = "memory-only at agent stop"
 		case oowNow > oowBefore && s < B-agentRel-window+200:
 			c.excused[s] = "agent: out of historic window"
-		case c.memFull && !c.disk:
-			c.excused[s] = "agent: memory overflow without disk cache"
+		case (!c.disk || !c.diskOk) && c.trueUsedPrev+c.unit > c.limit:
+			c.excused[s] = "agent: memory limit reached and no disk copy"
+			c.stat("drop.memory-limit")
+		case (!c.disk || !c.diskOk) && c.counterPrev+c.unit > c.limit:
+			c.viol("false-memory-limit-drop", "after %q second %d (no disk copy, not acknowledged) was thrown away as 'memory limit' although the queue held %d bytes + %d other of %d allowed (the agent's counter said %d)", opName, s, c.trueUsedPrev-c.ballastBytes, c.ballastBytes, c.limit, c.counterPrev)
 		default:
 			c.viol("forgot-without-ack", "after %q the agent no longer holds second %d (not in queue, disk cache or a sender) although no aggregator acknowledged it", opName, s)
 		}
 	}
 	c.heldPrev = now
+	c.trueUsedPrev, c.counterPrev = c.ballastBytes+c.ag.QueueDataBytes(), c.ag.HistoricDataSize()
 }
 
 func (c *caseRun) doRecv(rid int64) {
@@ -713,7 +743,7 @@ func (c *caseRun) doAgentRestart(crash bool) {
 		}
 	}
 	for _, f := range c.flights {
-		if f.id == 0 && (f.historic || crash || !c.disk) {
+		if f.id == 0 && (f.historic || crash || !c.disk || !c.diskOk) {
 			memOnly[f.sec] = true
 		}
 	}
@@ -741,15 +771,24 @@ func (c *caseRun) doAgentRestart(crash bool) {
 	}
 	c.oowPrev += c.ag.OutOfWindowDropped()
 	c.ag.Close()
-	c.memFull = false
 	c.newAgent()
 	c.checkForgotten("agentrestart", 0, false, true, memOnly, oowBefore)
 }
 
-func (c *caseRun) doMem(b bool) {
-	c.op("mem %d", b01(b))
-	c.memFull = b
-	c.ag.SetMemoryPressure(b)
+// other queued data now takes k of the 1000 units of the historic memory budget
+func (c *caseRun) doBallast(k int) {
+	c.op("ballast %d", k)
+	nb := c.limit - (1000-k)*c.unit
+	c.ag.AddHistoricDataSize(nb - c.ballastBytes)
+	c.ballastUnits, c.ballastBytes = k, nb
+	c.trueUsedPrev, c.counterPrev = c.ballastBytes+c.ag.QueueDataBytes(), c.ag.HistoricDataSize()
+	c.stat(fmt.Sprintf("ballast.room%d", 1000-k))
+}
+
+func (c *caseRun) doDiskOk(b bool) {
+	c.op("diskok %d", b01(b))
+	c.diskOk = b
+	c.ag.SetDiskOk(b)
 }
 
 func (c *caseRun) doBad(r int, kind int) {
@@ -876,7 +915,7 @@ func (c *caseRun) run(quickOps int) {
 		c.ensureReplica()
 		wire := c.sortedKeys(c.wire)
 		answers := c.answerKeys()
-		switch c.r.Pick(14, 4, 16, 16, 14, 5, 10, 3, 2, 2, 3, 2, 1, 1) {
+		switch c.r.Pick(14, 5, 16, 16, 14, 5, 10, 3, 2, 2, 5, 2, 1, 1) {
 		case 0:
 			c.doRecent(c.freshSecond(used))
 		case 1:
@@ -918,7 +957,11 @@ func (c *caseRun) run(quickOps int) {
 		case 9:
 			c.doAgentRestart(c.r.Chance(1, 2))
 		case 10:
-			c.doMem(!c.memFull)
+			if c.r.Chance(1, 3) {
+				c.doDiskOk(!c.diskOk)
+			} else {
+				c.doBallast([]int{0, 1000, 1000, 999, 998, 995}[c.r.Intn(6)])
+			}
 		case 11:
 			c.doBad(c.r.Intn(3), c.r.Intn(3))
 		case 12: // the aggregators' clock jumps (long pause): parked historic buckets may become stale
@@ -944,7 +987,9 @@ func (c *caseRun) run(quickOps int) {
 
 // fault-free continuation: everything up, every message delivered, clocks advance; the queue must drain
 func (c *caseRun) finish() {
-	c.doMem(false)
+	c.doBallast(0)
+	c.state()
+	c.doDiskOk(true)
 	c.state()
 	for r := 0; r < 3; r++ {
 		if !c.ag.Alive(r) {
@@ -1062,6 +1107,10 @@ func main() {
 	}
 	if h.Mode == "conveyor" {
 		conveyor(h)
+		return
+	}
+	if h.Mode == "wakeup" {
+		wakeup(h)
 		return
 	}
 	nOps := 28
@@ -1281,6 +1330,28 @@ func gen() {
 	fmt.Printf("/-- sendHistoric loop: conditions whose body `continue`s (retry), and whether the top-level erase comes after the discard guard -/\n")
 	fmt.Printf("def sendHistoricRetryConds : List String := %s\n", leanList(guards))
 	fmt.Printf("def sendHistoricEraseAfterDiscardGuard : Bool := %v\n", eraseAfterGuard)
+	// which functions wake the consumers of the historic queue (s.cond.Signal / s.cond.Broadcast)
+	var sites []string
+	for _, d := range sendF.Decls {
+		fd, ok := d.(*ast.FuncDecl)
+		if !ok || fd.Body == nil {
+			continue
+		}
+		found := false
+		ast.Inspect(fd.Body, func(x ast.Node) bool {
+			if ce, ok := x.(*ast.CallExpr); ok {
+				if r := render(fset, ce.Fun); r == "s.cond.Signal" || r == "s.cond.Broadcast" {
+					found = true
+				}
+			}
+			return true
+		})
+		if found {
+			sites = append(sites, fd.Name.Name)
+		}
+	}
+	fmt.Printf("/-- functions of agent_shard_send.go that call s.cond.Signal() / s.cond.Broadcast(), source order -/\n")
+	fmt.Printf("def condSignalSites : List String := %s\n", leanList(sites))
 	fmt.Println()
 	fmt.Println("end SH.Gen.C01")
 }
@@ -1353,6 +1424,99 @@ func conveyor(h *verifx.H) {
 		c.ch.srv.Close()
 	}
 	os.Stdout = out
+	h.Done()
+}
+
+// ---------------------------------------------------------------- -mode=wakeup: the real consumers of the historic queue
+
+// ackClient answers every sendSourceBucket3 with discard (an aggregator that inserts everything) and records the seconds.
+type ackClient struct {
+	fakeClient
+	mu  sync.Mutex
+	got map[uint32]int
+}
+
+func (a *ackClient) Do(ctx context.Context, network string, address string, req *rpc.Request) (*rpc.Response, error) {
+	var args tlstatshouse.SendSourceBucket3
+	if _, err := args.ReadTL1Boxed(req.Body); err != nil {
+		return nil, err
+	}
+	a.mu.Lock()
+	a.got[args.Time]++
+	a.mu.Unlock()
+	var resp tlstatshouse.SendSourceBucket3Response
+	resp.SetDiscard(true)
+	body, err := args.WriteResultTL1(nil, resp)
+	if err != nil {
+		return nil, err
+	}
+	return &rpc.Response{Body: body}, nil
+}
+func (a *ackClient) count(t uint32) int {
+	a.mu.Lock()
+	defer a.mu.Unlock()
+	return a.got[t]
+}
+
+// Liveness of the wake-up protocol on Shard.cond, in real time with the REAL goSendHistoric / goEraseHistoric goroutines
+// and the real flushBuckets clock advance. A second that is still `ahead` seconds in the future is saved by a stopping
+// agent (sendToSenders with nobody sending = shutdown flush of the future queue), the agent starts again (real MakeAgent
+// reads it back), nothing fails and nothing else is appended. The consumers find the second in the future and wait; they
+// must be woken when it stops being in the future and deliver it. Expected about ahead+1 s; budget 40 s.
+func wakeup(h *verifx.H) {
+	out := os.Stdout
+	for i := 0; i < h.N; i++ {
+		fmt.Fprintf(out, "@case %d %d\n", i, h.Seed)
+		r := verifx.NewRng(h.Seed*7919 + uint64(i))
+		ahead := uint32(2 + r.Intn(2))
+		senders := 1 + r.Intn(2)
+		dir, err := os.MkdirTemp("", "verif-c01w-")
+		if err != nil {
+			panic(err)
+		}
+		cl := &ackClient{got: map[uint32]int{}}
+		c := &caseRun{stats: map[string]int64{}}
+		a1, err := agent.VerifC01NewAgent(dir, false, window, cl)
+		if err != nil {
+			panic(err)
+		}
+		sec := uint32(time.Now().Unix()) + ahead
+		c.base = sec
+		a1.SendToSenders(c.mkCbd(B))
+		a1.Close()
+		a2, err := agent.VerifC01NewAgent(dir, false, window, cl)
+		if err != nil {
+			panic(err)
+		}
+		q := a2.Queue()
+		fmt.Fprintf(out, "# wakeup: second now+%d saved at stop, %d queued after restart, %d historic senders + eraser\n", ahead, len(q), senders)
+		if len(q) != 1 || q[0].Time != sec {
+			fmt.Fprintf(out, "! sig=silently-lost second saved by the stopping agent is not in the historic queue after restart (queue %d)\n", len(q))
+			_ = os.RemoveAll(dir)
+			continue
+		}
+		ctx, cancel := context.WithCancel(context.Background())
+		start := time.Now()
+		a2.StartHistoric(ctx, senders)
+		deadline := start.Add(40 * time.Second)
+		for time.Now().Before(deadline) && cl.count(sec) == 0 {
+			time.Sleep(50 * time.Millisecond)
+		}
+		if cl.count(sec) == 0 {
+			fmt.Fprintf(out, "! sig=historic-sender-never-woken second saved %d s ahead of the clock by the previous run is now %d s in the past, inside the historic window, still queued (%d) and was never sent: no consumer of the historic queue was woken when it stopped being in the future\n",
+				ahead, int64(time.Now().Unix())-int64(sec), len(a2.Queue()))
+		} else {
+			fmt.Fprintf(out, "@nt future-second-delivered\n")
+			// the acknowledged second must also leave the disk cache
+			time.Sleep(200 * time.Millisecond)
+			if ids, _ := a2.Known(); len(ids) != 0 {
+				fmt.Fprintf(out, "# wakeup: %d disk records left after acknowledgement\n", len(ids))
+			}
+		}
+		cancel()
+		a2.Close()
+		_ = os.RemoveAll(dir)
+	}
 	h.Done()
 }
 
